@@ -16,7 +16,15 @@ import pandas as pd
 from harness import synth
 
 NA = "~"
-THR = 90  # reporting threshold used by materialised runs
+THR = 90  # the customary reporting threshold of materialised runs
+# ... but the threshold is an argument like any other: runs are spread over several values, among them values where
+# percent / 100 and threshold * 0.01 are different floats (70, 83, 95, 57: seeded change C01_E) and the maximum 100
+THRS = (90, 70, 95, 90, 83, 100, 57, 90)
+
+
+def thr_for(seed):
+    return THRS[int(seed) % len(THRS)]
+
 EST_SETUP = {
     "nonparametric": dict(estimands=("turnout",), features=("x1",), mp={}),
     "gaussian": dict(estimands=("turnout",), features=("x1",), mp={}),
@@ -41,6 +49,7 @@ def agg_keys(level, district_office):
 
 
 def ballast(seed, n_rep=26, n_non=3, district_gut=False, high_pev=False):
+    thr = thr_for(seed)
     rng = np.random.default_rng(seed)
     rows, feed = [], []
     for i in range(n_rep + n_non):
@@ -69,7 +78,7 @@ def ballast(seed, n_rep=26, n_non=3, district_gut=False, high_pev=False):
         dem = int(round(t * share))
         pev = 100
         if i >= n_rep:
-            pev = int(rng.integers(60 if high_pev else 10, THR))
+            pev = int(rng.integers(min(60 if high_pev else 10, thr - 12), thr))
             t = int(t * pev / 100)
             dem = int(dem * pev / 100)
         feed.append(
@@ -111,6 +120,7 @@ def materialise(pack, seed, vote_scale=3, exact_boundaries=True, ballast_rep=26,
     sc0 = pack[0]
     district_gut = sc0["districtGut"]
     brow, frow = ballast(seed, n_rep=ballast_rep, n_non=ballast_non, district_gut=district_gut, high_pev=high_pev)
+    thr = thr_for(seed)
     meta = {"units": {}, "states": {}, "blocklist": [], "unit_blocklist": [], "ballast_rep": ballast_rep}
     for p, sc in enumerate(pack):
         assert (sc["policy"], sc["districtOffice"], list(sc["levels"])) == (
@@ -137,12 +147,22 @@ def materialise(pack, seed, vote_scale=3, exact_boundaries=True, ballast_rep=26,
                     f = TF_VARIANTS[(i + p) % 4] if exact_boundaries else TF_VARIANTS[2 + (i + p) % 2]
                     bt = int(Fraction(tb) / f)
                     assert Fraction(tb, bt) == f
+                elif u.get("hamlet"):
+                    bt = 1
+                elif vb > 0 and u.get("extreme"):
+                    # inside the hard limits (factor 1.9) but far from everybody else in turnout AND in margin change
+                    # (baseline 39 : 1 against, result 2 : 1 for): meant to be flagged by BOTH default outlier models
+                    bt = max(2, (tb * 10) // 19)
                 elif vb > 0:
                     # a modelled unit: factor strictly inside (0.5, 2); vary it a little
                     bt = [tb, tb + tb // 4, tb - tb // 4][(i + p) % 3]
                 else:
                     bt = vote_scale * 4 ** (1 + i % 5)
                 bd = bt // 2 + (i % 3 if bt > 4 else 0)
+                if u.get("extreme") and vb > 0:
+                    bd = bt // 40
+                if u.get("hamlet"):
+                    bd = 1
                 brow.append(
                     dict(
                         postal_code=_state(p, u["bstate"]),
@@ -160,9 +180,9 @@ def materialise(pack, seed, vote_scale=3, exact_boundaries=True, ballast_rep=26,
                     meta["unit_blocklist"].append(fid)
             if u["inFeed"]:
                 if u["rep"]:
-                    pev = THR if (i + p) % 2 == 0 else 100
+                    pev = thr if (i + p) % 2 == 0 else 100
                 else:
-                    pev = THR - 1 if (i + p) % 2 == 0 else (70 if high_pev else 40)
+                    pev = thr - 1 if (i + p) % 2 == 0 else min(70 if high_pev else 40, thr - 3)
                     if exact_boundaries and (i + p) % 5 == 0 and not high_pev:
                         pev = 0
                 frow.append(
@@ -193,6 +213,7 @@ class OutlierRecorder:
 
     def __init__(self):
         self.calls = {}
+        self.inputs = {}  # response variable -> ids of the units the outlier model was fitted on (its read set)
 
     def __enter__(self):
         from elexmodel.handlers.data.CombinedData import CombinedDataHandler
@@ -204,6 +225,7 @@ class OutlierRecorder:
         def wrapped(self_, reporting_units, response_variable, outlier_z_threshold):
             out = rec.orig(self_, reporting_units, response_variable, outlier_z_threshold)
             rec.calls[response_variable] = set(out["geographic_unit_fips"].tolist())
+            rec.inputs[response_variable] = set(reporting_units["geographic_unit_fips"].tolist())
             return out
 
         CombinedDataHandler._fit_outlier_detection_model = wrapped
@@ -230,12 +252,13 @@ def run_pack(pack, estimator, seed, pis=(0.7, 0.9), extra_mp=None, client=None, 
         mp.update(extra_mp)
     aggregates = list(sc0["levels"]) + ["unit"]
     with OutlierRecorder() as rec:
-        c, res = _run_client(pre, cur, setup, office, pis, gut, aggregates, estimator, sc0, mp, client, kw)
+        c, res = _run_client(pre, cur, setup, office, pis, gut, aggregates, estimator, sc0, mp, client, kw, thr_for(seed))
     meta["outlier_calls"] = rec.calls
+    meta["outlier_inputs"] = rec.inputs
     return c, res, meta, (pre, cur)
 
 
-def _run_client(pre, cur, setup, office, pis, gut, aggregates, estimator, sc0, mp, client, kw):
+def _run_client(pre, cur, setup, office, pis, gut, aggregates, estimator, sc0, mp, client, kw, thr=THR):
     estimands = setup["estimands"]
     if sc0.get("multiEst"):
         assert estimator != "bootstrap"
@@ -246,7 +269,7 @@ def _run_client(pre, cur, setup, office, pis, gut, aggregates, estimator, sc0, m
         estimands=estimands,
         office=office,
         pis=pis,
-        thr=THR,
+        thr=thr,
         gut=gut,
         features=setup["features"],
         aggregates=aggregates,
@@ -455,6 +478,13 @@ def random_scenario(rnd, n_units, policy, district_office, levels, allow_mismatc
                 votes,
             )
         )
+    # hamlets: outstanding units with a single baseline voter, alone in their own county (and class): a group whose
+    # predicted turnout is a fraction of one vote (seeded change C02_F: division by "at least one vote")
+    if rnd.random() < 0.5:
+        for _ in range(rnd.randint(1, 3)):
+            h = mk_unit(len(units) + 1, "none0", rnd.choice(["S1", "S2"]), "c7", "k7", rnd.choice(dists), "c7", rnd.choice(dists), 0)
+            h["hamlet"] = True
+            units.append(h)
     return {
         "policy": policy,
         "districtOffice": district_office,
@@ -483,6 +513,7 @@ def trace_of(pack, res, meta, estimator, pis):
     proj = Projection(pack, res, meta, estimator, pis)
     out = []
     calls = meta.get("outlier_calls", {})
+    inputs = meta.get("outlier_inputs", {})
     for p, sc in enumerate(pack):
         sc = {k: v for k, v in sc.items()}
         sc["estimator"] = estimator
@@ -528,6 +559,9 @@ def trace_of(pack, res, meta, estimator, pis):
                     "tables": tables,
                     "calledT": "turnout_factor" in calls,
                     "calledM": "results_normalized_margin" in calls,
+                    # the scenario units each outlier model was fitted on (indices): its read set
+                    "fitT": [i + 1 for i in range(len(sc["units"])) if meta["units"][(p, i + 1)] in inputs.get("turnout_factor", ())],
+                    "fitM": [i + 1 for i in range(len(sc["units"])) if meta["units"][(p, i + 1)] in inputs.get("results_normalized_margin", ())],
                 },
             }
         )
